@@ -159,7 +159,8 @@ def run(ctx, idx):
             kind, line, text = eff[0], eff[1], eff[2]
             if kind in ("open-write", "open-read", "print", "file-write", "os-mutation") and not io:
                 probs.append((line, "%s in a pure computation command: %s" % (kind, text)))
-            if kind == "os-mutation":
+            if kind == "os-mutation" and not (io and any(("kwargs['%s']" % nm_) in text or ('kwargs["%s"]' % nm_) in text for nm_, p_ in d.inputs.items() if p_.is_a(idx, "mpilot.params.PathParameter"))):
+                # (a writer may remove or replace the file its own path argument names - e.g. a probe it created itself)
                 probs.append((line, "file-system mutation: %s" % text))
             if kind == "dependency-store":
                 probs.append((line, "stores an attribute on a dependency: %s" % text))
